@@ -43,6 +43,15 @@ RoadmLossApplied(x, tol)    == \A i \in 1..Len(x.ch) : x.ch[i].out <= x.ch[i].in
 RoadmReported(x, tol)       == \A i \in 1..Len(x.ch) : /\ Within(x.ch[i].lossRep, x.ch[i].in - x.ch[i].out, tol)
                                                          /\ Within(x.ch[i].poutRep, x.ch[i].out, tol)
 
+\* --- which impairment profile gives the path loss of a crossing ---------------------------------------------------------
+\* profiles: the profiles of the ROADM type AS LISTED in the library, <<[id, type, loss]>> (type = "add" | "drop" |
+\* "express"); explicitId: the id written for this pair of degrees in the element (per_degree_impairments), NONE if none.
+\* The explicit profile if there is one, else the FIRST LISTED profile of the crossing's type (whatever the ids).
+ProfileFor(profiles, ptype, explicitId) ==
+   IF explicitId # NONE THEN profiles[CHOOSE i \in 1..Len(profiles) : profiles[i].id = explicitId]
+   ELSE profiles[CHOOSE i \in 1..Len(profiles) : /\ profiles[i].type = ptype
+                                                  /\ \A j \in 1..(i - 1) : profiles[j].type # ptype]
+
 \* --- exactly one node-level policy is in force ------------------------------------------------------------------
 \* lib / elt: the sets of node-level policy kinds written in the equipment-library entry / in the element itself.
 \* A library entry must carry exactly one; an element may carry none (library default applies) or one (it REPLACES the
@@ -169,4 +178,9 @@ AccCdLinear(x, tol)       == AccAdds(x.cd0, x.cd1, x.dCd, tol)
 AccLatencyLinear(x, tol)  == AccAdds(x.lat0, x.lat1, x.dLat, tol)
 AccPmdQuadrature(x, tol)  == AccAdds(x.pmd0, x.pmd1, x.dPmd, tol)
 AccPdlQuadrature(x, tol)  == AccAdds(x.pdl0, x.pdl1, x.dPdl, tol)
+\* a ROADM's own PMD^2 / PDL^2 follow from the CONFIGURATION (cfg = 1: the event carries pmdCfg / pdlCfg per channel): the
+\* value the impairment profile of the crossed path defines for the channel's frequency range where it defines one, else
+\* the ROADM-level value - each of the two quantities on its own
+RoadmContribFromConfig(x, tol) == x.cfg = 1 => /\ \A i \in 1..Len(x.dPmd) : Within(x.dPmd[i], x.pmdCfg[i], tol)
+                                               /\ \A i \in 1..Len(x.dPdl) : Within(x.dPdl[i], x.pdlCfg[i], tol)
 ==============================================================================
